@@ -187,6 +187,9 @@ func main() {
 	}
 
 	eng := &Engine{prog: prog, db: db, prop: *prop, cfg: cfg, obls: map[string]*Obligation{}, immutableHeap: map[string]bool{}, fnByShort: map[string]fnEntry{}, replayCache: map[string]*replayResult{}}
+	if b, err := os.ReadFile(filepath.Join(*verif, "baseline", *prop+".locals.json")); err == nil {
+		json.Unmarshal(b, &eng.baseLocals)
+	}
 	eng.checkImmutables(fnIndex)
 	type fnReport struct {
 		Func        string `json:"func"`
@@ -379,6 +382,8 @@ func main() {
 		os.MkdirAll(filepath.Dir(basePath), 0o755)
 		b, _ := json.MarshalIndent(bl, "", " ")
 		os.WriteFile(basePath, b, 0o644)
+		lb, _ := json.MarshalIndent(eng.curLocals, "", " ")
+		os.WriteFile(filepath.Join(*verif, "baseline", *prop+".locals.json"), lb, 0o644)
 	}
 	if *verbose || violations > 0 {
 		for _, ob := range obls {
@@ -518,7 +523,23 @@ func clauseKey(name string) string {
 	switch kind {
 	case "index", "slice", "nil", "overflow", "div", "makeslice", "typeassert", "nilmap", "call", "panic", "convert", "vacuity", "frame", "lock", "unlock", "lockleak", "guard":
 		return ""
-	case "at_call", "at_store", "only_calls", "pre", "monitor":
+	case "pre":
+		// pre#<instruction ordinal>.<Callee>.<clause>: the instruction ordinal moves with any
+		// edit; the clause is identified by the callee and the clause number
+		if j := strings.Index(tail, "."); j >= 0 {
+			rest := tail[j+1:]
+			if strings.Contains(rest, ".holds") {
+				return ""
+			}
+			// (not tied to the enclosing function either: the call may move into a helper)
+			prop := name
+			if k := strings.Index(name, "/"); k >= 0 {
+				prop = name[:k]
+			}
+			return prop + "/pre@" + rest
+		}
+		return ""
+	case "at_call", "at_store", "only_calls", "monitor":
 		// strip the site sub-ordinal: kind#clause.site...
 		if j := strings.Index(tail, "."); j >= 0 {
 			return name[:i+1] + tail[:j]
